@@ -157,21 +157,27 @@ theorem nulls_dropped_in_rows (a : Attrs) (kv : Str × Val) :
 
 example : filterRow [(['v'], .int 1), (['w'], .null), ("name".toList, .str ['x'])] = [(['v'], .int 1)] := by rfl
 
-/-- `list_to_tree` on well-formed, pairwise different path strings (any leading/trailing separators,
-    both duplicate settings): the node paths are exactly the prefixes of the given paths, each once;
-    and the children of every node are ordered by first appearance — their paths form a sublist of
-    `firstSeen`, the duplicate-free list of all prefixes in order of first appearance.
+/-- `list_to_tree` on ANY non-empty list of well-formed path strings — repeated paths, any order,
+    any leading/trailing separators (`WfStr`: the string is some run of separators, non-empty
+    components free of the separator joined by it, some run of separators), both duplicate
+    settings. With `branchOf p` the components of `p` and `firstSeen` the duplicate-free list of
+    all prefixes in order of first appearance:
+    the node paths are exactly the prefixes of the given paths, each once, and the children of every
+    node are ordered by first appearance (their paths form a sublist of `firstSeen`).
     With duplicates disallowed all names of the result are distinct. -/
-theorem children_first_appearance (c : Char) (dupOk : Bool) (items : List Item) (hwf : ∀ it ∈ items, it.Wf c)
-    (hat : ∀ it ∈ items, it.attrs = []) (hnd : (items.map (·.render c)).Nodup) (t : Tree)
-    (h : listToTree [c] dupOk (items.map (·.render c)) = .ok t) :
-    (firstSeen (items.map (·.branch))).Nodup ∧
-    (∀ q, q ∈ paths t ↔ q ∈ firstSeen (items.map (·.branch))) ∧ (paths t).Nodup ∧
+theorem children_first_appearance (c : Char) (dupOk : Bool) (ps : List Str) (hwf : ∀ p ∈ ps, WfStr c p) (t : Tree)
+    (h : listToTree [c] dupOk ps = .ok t) :
+    (firstSeen (ps.map (branchOf c))).Nodup ∧
+    (∀ q, q ∈ paths t ↔ q ∈ firstSeen (ps.map (branchOf c))) ∧ (paths t).Nodup ∧
     (∀ b n, nodeAt b t = some n →
-      (kidPaths (namesAlong b t) n).Sublist (firstSeen (items.map (·.branch)))) ∧
+      (kidPaths (namesAlong b t) n).Sublist (firstSeen (ps.map (branchOf c)))) ∧
     (dupOk = false → (names t).Nodup) := by
-  obtain ⟨h1, h2, h3, h4, h5⟩ := listToTree_spec c dupOk items hwf hat hnd t h
+  obtain ⟨h1, h2, h3, h4, h5⟩ := listToTree_spec' c dupOk ps hwf t h
   exact ⟨h2, h3, nodup_paths t h1, h4, h5⟩
+
+/-- the components read off a well-formed string are the ones it was written from -/
+theorem branchOf_written (c : Char) (it : Item) (hw : it.Wf c) : branchOf c (it.render c) = it.branch :=
+  branchOf_render c it hw
 
 /-- non-vacuity: `["a/c/x", "/a/b/", "a/c/y"]` — `c` before `b`, `x` before `y` -/
 example : listToTree ['/'] true ["a/c/x".toList, "/a/b/".toList, "a/c/y".toList] =
@@ -180,6 +186,12 @@ example : listToTree ['/'] true ["a/c/x".toList, "/a/b/".toList, "a/c/y".toList]
 
 example : firstSeen [[['a'], ['c'], ['x']], [['a'], ['b']], [['a'], ['c'], ['y']]] =
     [[['a']], [['a'], ['c']], [['a'], ['c'], ['x']], [['a'], ['b']], [['a'], ['c'], ['y']]] := by rfl
+
+example : WfStr '/' "/a/b/".toList := by
+  refine ⟨⟨['/'], [['a'], ['b']], ['/'], []⟩, ⟨by simp, by simp, by simp, ?_⟩, rfl, rfl⟩
+  intro x hx
+  simp at hx
+  rcases hx with rfl | rfl <;> simp
 
 example : (⟨['/'], [['a'], ['b']], ['/'], []⟩ : Item).Wf '/' := by
   refine ⟨by simp, by simp, by simp, ?_⟩
